@@ -120,6 +120,10 @@ DefaultStall(z) ==
 SlowWrite(z) ==
     {LET a == Args(3, 1, 10, 2, <<>>, <<>>, 0, 4660) R == ReplyTo(FramingOf(cl), a, <<1, 0>>)
      IN Exch(cl, a, R, <<[k |-> "wslow", n |-> 300, e |-> ""], Chunk(3), Chunk(Len(R) - 3)>>, "none", 0, 0) : cl \in Clients}
+    \* a slow device and a client whose write timeout (100 ms) is shorter than its read timeout (400 ms): the reply begins
+    \* after 250 ms - the read timeout is the one that is about replies
+    \cup {LET a == Args(3, 1, 10, 2, <<>>, <<>>, 0, 4660) R == ReplyTo(FramingOf(cl), a, <<1, 0>>)
+          IN Exch(cl, a, R, <<[k |-> "rslow", n |-> 300, e |-> ""], Chunk(3), Chunk(Len(R) - 3)>>, "none", 0, 0) : cl \in Clients \ {"serial"}}
 
 C07Cases(z) ==
     (IF Part = 0 THEN UNION {HistCases(cl) : cl \in Clients} \cup DefaultBenign(0) \cup SlowWrite(0) ELSE {}) \cup
@@ -148,6 +152,8 @@ FaultCases(cl, a, R) ==
             Exch(cl, a, R, PrefixScript(p, 0) \o <<Term("ioerr")>>, "ioerr", 0, 0),
             Exch(cl, a, R, PrefixScript(p, 0) \o <<Term("cancel")>>, "cancel", 0, 0),
             Exch(cl, a, R, PrefixScript(p, 1) \o <<Empty("deadline"), Term("ioerr")>>, "ioerr", 0, 0)} : p \in PrefixLens(L)}
+    \* the caller's context carries a deadline of its own, shorter than the read timeout, and the peer stalls
+    \cup {Exch(cl, a, R, PrefixScript(p, 0), "ctxdeadline", 0, 0) : p \in {0, 1, L \div 2} \cap (0..(L - 1))}
     \cup {Exch(cl, a, R, <<Term("writeerr")>>, "writeerr", 0, 0),
           Exch(cl, a, R, <<>>, "notconnected", 0, 0),
           Exch(cl, a, R, <<>>, "nilreq", 0, 0)}
